@@ -38,6 +38,11 @@ class C03(PropBase):
                 if len(fields) > 1:
                     pstr = '/'.join(val for _, val in fields[:-1])
                     more.append(Case('div', [['f', fields[:-1]], fields[-1][1]], 'div', meta))
+                if rng.random() < 0.12 and len(fields) > 1:
+                    # the same navigations after a caller played with the dictionary returned by .fields (in one process)
+                    k = rng.choice([a for a, _ in fields])
+                    more.append(Case('seq', [['fields_mutate', [src, rng.choice([a for a, _ in fields] + ['foo']), rng.choice(['zzz', '*', ''])]],
+                                             ['get_as', [src, k]], ['parent', [src]], ['obs', [src]]], 'after_mutation', dict(meta, key=k)))
             else:
                 more.append(Case('parent', [c.args[0]], 'untyped', meta))
                 more.append(Case('get_as', [c.args[0], 'project'], 'untyped', meta))
@@ -62,6 +67,17 @@ class C03(PropBase):
             return None
         orig = case.meta.get('orig')
         string, ty, fields = orig
+        if case.op == 'seq':
+            k = case.meta['key']
+            i = [a for a, _ in fields].index(k) + 1
+            _, ga, pa, ob = impl
+            if ga[0] != 'ok' or ga[1][2] != fields[:i] or ga[1][0] != '/'.join(string.split('/')[:i]):
+                return 'after mutating the dictionary returned by Sid(%r).fields, get_as(%s) is %r' % (case.args[0][1][0][1], k, ga)
+            if pa[0] != 'ok' or pa[1][2] != fields[:-1]:
+                return 'after mutating the dictionary returned by Sid(%r).fields, parent is %r' % (case.args[0][1][0][1], pa)
+            if not isinstance(ob, list) or ob[0] != orig or ob[2] != str(len(fields)):
+                return 'after mutating the dictionary returned by Sid(%r).fields, the Sid is %r (len %r)' % (case.args[0][1][0][1], ob[0] if isinstance(ob, list) else ob, ob[2] if isinstance(ob, list) and len(ob) > 2 else None)
+            return None
         if impl[0] != 'ok':
             return '%s raised: %r' % (case.op, impl)
         got = impl[1]
